@@ -354,4 +354,10 @@ Definition tobj (p : tprog) (c : pc) : option oid :=
   | Some (OAdded _ _) => match p with TAdd x | TAddSplit x => Some x | _ => None end
   | _ => None
   end.
+(* an add thread adds a live object whose id is k *)
+Definition targets (k : key) (s : st) (p : tprog) : Prop :=
+  match p with
+  | TAdd x | TAddSplit x => exists ob, alookup x (heap s) = Some ob /\ okey ob = k
+  | _ => True
+  end.
 Definition is_now (p : tprog) : bool := match p with TGet | TAdd _ => true | _ => false end.
